@@ -593,8 +593,8 @@ def _arraybuild_programs(run, descs, name, debug_assertions=True):
     import gen_arraybuild as ga
     ps = progs.ProgSet(run, name, prelude=progs.HOSTILE_PRELUDE, debug_assertions=debug_assertions)
     for r in descs.values():
-        if run.tier == "quick" and r["ending"] == "loop" and not (r["n"] == 2 and r["pos"] == 1):
-            continue        # non-terminating programs cost a timeout each: quick keeps one per macro
+        if run.tier == "quick" and r["ending"] == "loop" and r["n"] > 3:
+            continue        # non-terminating programs cost a timeout each (8 run at a time): quick keeps n <= 3
         for body, exp, rec, isolate, hostile in ga.cases(r):
             if hostile:
                 # the property: never an array with an unwritten element; it loops, panics, leaves or does not compile
